@@ -312,7 +312,7 @@ func hash(s string) string {
 
 // Main is the body of cmd/c24, cmd/c25, cmd/c26.
 func Main(prop string) {
-	c := hx.Start(prop, "Run.Check_"+prop, 60)
+	c := hx.Start(prop, "Run.Check_"+prop, 100)
 	report := func(sc Scenario, s *Sim, stranded []string, emit bool) {
 		c.Obs.Evaluations++
 		c.Count("family:" + strings.SplitN(sc.Family, ":", 2)[0])
@@ -408,14 +408,14 @@ func Main(prop string) {
 				stranded := s.Drain(rng.Intn)
 				s.Close()
 				nenum++
-				report(Scenario{Family: "enum:" + b.Family, Plan: b.Plan, DrainSeed: uint64(k*31+ii) - 17}, s, stranded, c.Thorough() || nenum%3 == 0)
+				report(Scenario{Family: "enum:" + b.Family, Plan: b.Plan, DrainSeed: uint64(k*31+ii) - 17}, s, stranded, c.Thorough() || nenum%4 == 0)
 			}
 		}
 	}
 	n := c.N(1500, 40000)
 	for i := 0; i < n; i++ {
 		s, stranded, sc := randomRun(c.Rng.Fork())
-		report(sc, s, stranded, i < c.N(250, 6000))
+		report(sc, s, stranded, i < c.N(200, 6000))
 	}
 	free(c, prop)
 	c.Obs.Rule = "single-stepped runs of a real rpc.Engine (fake clock, injected send/drop, 1-4 concurrent Do calls): forced witness schedules, close/cancel/result/ack/timer injected at every scheduling point of 7 baseline histories, and random schedules; non-trivial = distinct event sequence in which the steps of at least one goroutine are interleaved with another goroutine's steps"
